@@ -1,8 +1,150 @@
 import Req.Driver.Proto
-/-! Driver lanes of C19. -/
-namespace Req.Driver.L.C19
-open Req.Proto
+import Req.Client.Scope
+import Req.Client.Heap
+/-! Driver lanes of C19.
 
-def lanes : List (String × (List String → String)) := []
+`c19prog <program>` — run an API program on the value model (`Scope.runScope`) and print the
+observations. `c19heap <alias> <program>` — run a wrapper/clone program on the reference-aware
+model (`Heap`) with the wrapper slices copied by assignment (`alias = 1`, the code before
+fixes/C19-1) or cloned (`alias = 0`).
+
+Program text: ops joined by `;`.
+  `N` new client · `C<i>` clone · `R<i>` new request · `S<o>:<setter>` · `E<r>:<m>,<mode>,<path>,<setcookie>`
+  · `G<c>` GetCookies · `P<o>` probe.
+Setter text: code and numeric arguments joined by `,`; id lists joined by `.` (`_` = empty).
+-/
+namespace Req.Driver.L.C19
+open Req.Proto Req.Scope
+
+def natList (s : String) : Option (List Nat) :=
+  if s == "_" then some [] else (s.splitOn ".").mapM String.toNat?
+
+def parseSeg (s : String) : Option Seg :=
+  match s.toList with
+  | 'l' :: rest => (String.ofList rest).toNat?.map Seg.lit
+  | 'p' :: rest => (String.ofList rest).toNat?.map Seg.param
+  | _ => none
+
+def parsePath (s : String) : Option (List Seg) :=
+  if s == "_" then some [] else (s.splitOn ".").mapM parseSeg
+
+def mkField (n : Nat) : Option Field := if h : n < nFields then some ⟨n, h⟩ else none
+
+def parseSetter (s : String) : Option Setter :=
+  match s.splitOn "," with
+  | ["hs", k, v] => do pure (.hdrSet (← k.toNat?) (← v.toNat?))
+  | ["ha", k, v] => do pure (.hdrAdd (← k.toNat?) (← v.toNat?))
+  | ["ck", ids] => do pure (.cookies (← natList ids))
+  | ["ps", k, v] => do pure (.pathSet (← k.toNat?) (← v.toNat?))
+  | ["qs", k, v] => do pure (.querySet (← k.toNat?) (← v.toNat?))
+  | ["qa", k, v] => do pure (.queryAdd (← k.toNat?) (← v.toNat?))
+  | ["qm", k, vs] => do pure (.queryAdds (← k.toNat?) (← natList vs))
+  | ["fs", k, v] => do pure (.formSet (← k.toNat?) (← v.toNat?))
+  | ["fa", k, v] => do pure (.formAdd (← k.toNat?) (← v.toNat?))
+  | ["bf", id] => do pure (.before (← id.toNat?))
+  | ["af", id] => do pure (.after (← id.toNat?))
+  | ["wr", ids] => do pure (.wrap (← natList ids) false)
+  | ["wrf", ids] => do pure (.wrap (← natList ids) true)
+  | ["tw", ids] => do pure (.twrap (← natList ids) false)
+  | ["twf", ids] => do pure (.twrap (← natList ids) true)
+  | ["rc", n] => do pure (.retryCount (← n.toNat?))
+  | ["ri", id] => do pure (.retryInterval (← id.toNat?))
+  | ["cs", id] => do pure (.retryCondSet (← id.toNat?))
+  | ["ca", id] => do pure (.retryCondAdd (← id.toNat?))
+  | ["hks", id] => do pure (.retryHookSet (← id.toNat?))
+  | ["hka", id] => do pure (.retryHookAdd (← id.toNat?))
+  | ["dt", w] => do pure (.dumpTo (← w.toNat?))
+  | ["dw", m] => do pure (.dumpWithout (← m.toNat?))
+  | ["do", w, a, b, c, d] => do pure (.dumpOptions (← w.toNat?) (← a.toNat?) (← b.toNat?) (← c.toNat?) (← d.toNat?))
+  | ["dx"] => some .dumpOff
+  | ["sc", f, v] => do pure (.scalar (← mkField (← f.toNat?)) (← v.toNat?))
+  | ["jf", fid] => do pure (.jarFactory (← fid.toNat?))
+  | ["cc"] => some .clearCookies
+  | ["h2c", on] => do pure (.h2c (← on.toNat?))
+  | ["tc", id] => do pure (.tlsCert (← id.toNat?))
+  | ["tr", id] => do pure (.tlsRoot (← id.toNat?))
+  | ["bd", b] => do pure (.body (← b.toNat?))
+  | _ => none
+
+def parseOp (s : String) : Option Op :=
+  match s.toList with
+  | ['N'] => some .newClient
+  | 'C' :: rest => (String.ofList rest).toNat?.map Op.clone
+  | 'R' :: rest => (String.ofList rest).toNat?.map Op.newReq
+  | 'G' :: rest => (String.ofList rest).toNat?.map Op.getCookies
+  | 'P' :: rest => (String.ofList rest).toNat?.map Op.probe
+  | 'S' :: rest =>
+    match (String.ofList rest).splitOn ":" with
+    | [o, st] => do pure (.set (← o.toNat?) (← parseSetter st))
+    | _ => none
+  | 'E' :: rest =>
+    match (String.ofList rest).splitOn ":" with
+    | [r, args] =>
+      match args.splitOn "," with
+      | [m, mode, path, sc] => do
+        pure (.exec (← r.toNat?) (← m.toNat?) (← mode.toNat?) (← parsePath path) (← sc.toNat?))
+      | _ => none
+    | _ => none
+  | _ => none
+
+def parseProg (s : String) : Option (List Op) :=
+  if s == "_" then some [] else (s.splitOn ";").mapM parseOp
+
+def showList (l : List Nat) : String :=
+  if l.isEmpty then "_" else ".".intercalate (l.map toString)
+
+def showKvs (m : List (Nat × List Nat)) : String :=
+  if m.isEmpty then "_" else ",".intercalate (m.map fun e => toString e.1 ++ ":" ++ showList e.2)
+
+def showRSeg : RSeg → String
+  | .lit n => "l" ++ toString n
+  | .val v => "v" ++ toString v
+  | .unresolved k => "u" ++ toString k
+
+def showBody : BodyObs → String
+  | .none => "n"
+  | .raw b => "r" ++ toString b
+  | .form kvs => "f" ++ showKvs kvs
+
+def showLog (l : List Ev) : String :=
+  if l.isEmpty then "_" else ",".intercalate (l.map fun e => toString e.1 ++ "." ++ toString e.2.1 ++ "." ++ toString e.2.2)
+
+def showObs : Obs → String
+  | .none => "-"
+  | .err => "err"
+  | .exec n r log d rd =>
+    "E;a=" ++ toString n ++ ";m=" ++ toString r.method ++ ";b=" ++ toString r.base ++
+    ";p=" ++ (if r.path.isEmpty then "_" else ".".intercalate (r.path.map showRSeg)) ++
+    ";q=" ++ showKvs r.query ++ ";h=" ++ showKvs r.headers ++ ";c=" ++ showList r.cookies ++
+    ";y=" ++ showBody r.body ++ ";x=" ++ (if r.close then "1" else "0") ++ ";ae=" ++ toString r.acceptEnc ++
+    ";l=" ++ showLog log ++ ";d=" ++ showList d ++ ";rd=" ++ showList rd
+  | .cookies cs => "G" ++ showList cs
+  | .probe vals =>
+    let parts := (probeFields.zip vals).filterMap fun (f, m) =>
+      if m.isEmpty then none else some (toString f ++ "=" ++ showKvs m)
+    "P" ++ (if parts.isEmpty then "_" else ";".intercalate parts)
+
+def laneProg : List String → String
+  | [prog] =>
+    match parseProg prog with
+    | some ops => "|".intercalate ((runScope ops).2.map showObs)
+    | none => "bad-op"
+  | _ => "bad-op"
+
+/-- `c19heap <alias> <program>`: same program text, run on the reference-aware model; `alias = 1`
+copies the two wrapper slices by assignment in `Clone`. The answer has the same shape as `c19prog`. -/
+def laneHeap : List String → String
+  | [alias, prog] =>
+    match parseProg prog with
+    | some ops =>
+      let tc : Table := if alias == "1" then Req.Heap.aliasWrappers idealClone else idealClone
+      "|".intercalate ((Req.Heap.runHeap Req.Heap.goGrow tc idealReq ops).2.map showObs)
+    | none => "bad-op"
+  | _ => "bad-op"
+
+def lanes : List (String × (List String → String)) := [
+  ("c19prog", laneProg),
+  ("c19heap", laneHeap)
+]
 
 end Req.Driver.L.C19
